@@ -433,6 +433,9 @@ func init() {
 					idx++
 					if c.Mine(idx) {
 						cs := c17Case{Fmt: f.Name, Sep: "none", Pattern: "PFT", Driver: "transform", Cycles: 70000}
+						if strings.HasSuffix(f.Name, "-big-records") {
+							cs.Cycles = 400 // (25 KB per record: 70 000 cycles would be 5 GB of input)
+						}
 						c.Begin(func() interface{} { return cs })
 						sig, detail, o := c17Check(cs)
 						c.Eval(fmt.Sprintf("long|%s", f.Name))
